@@ -16,7 +16,8 @@ class CondDesign(Elaboratable):
         self.rdy = [Signal(name=f"r{i}") for i in range(self.nm)]
         self.re = Signal(name="re")
         # "m1d": the caller calls a middle method P under m.If, P calls the enclosing method unconditionally
-        self.ncallers = {"t": 0, "m1": 1, "m2": 2, "m1c": 1, "m2c": 2, "m1d": 1}[cfg["encl"]]
+        # "m0": the enclosing method is never called
+        self.ncallers = {"t": 0, "m0": 0, "m1": 1, "m2": 2, "m1c": 1, "m2c": 2, "m1d": 1}[cfg["encl"]]
         self.cc = [Signal(name=f"cc{i}") for i in range(self.ncallers)] if cfg["encl"][-1] in "cd" else []
         self.rc = [Signal(name=f"rc{i}") for i in range(self.ncallers)]
         self.conds = []
@@ -41,7 +42,9 @@ class CondDesign(Elaboratable):
                 def _(a):
                     pass
             else:
-                @def_method(m, meth, ready=self.rdy[i])
+                # cfg "nx": the callees are nonexclusive, so the enclosing body ("ecalls" mask) and nested branches may
+                # call the same method
+                @def_method(m, meth, ready=self.rdy[i], nonexclusive=bool(cfg.get("nx", False)))
                 def _():
                     pass
 
@@ -72,16 +75,22 @@ class CondDesign(Elaboratable):
                         if b.get("inner"):
                             emit_block(b["inner"])
 
+        def encl_body():
+            for i in range(self.nm):
+                if (cfg.get("ecalls", 0) >> i) & 1:
+                    self.ms[i](m)
+            emit_block(cfg["block"])
+
         if cfg["encl"] == "t":
             self.encl = Transaction(name="E")
             with self.encl.body(m, ready=self.re):
-                emit_block(cfg["block"])
+                encl_body()
         else:
             self.encl = Method(name="E")
 
             @def_method(m, self.encl, ready=self.re)
             def _():
-                emit_block(cfg["block"])
+                encl_body()
 
             target = self.encl
             if cfg["encl"] == "m1d":
@@ -204,6 +213,10 @@ class CondH(MethodHarness):
         # methods run only through running branches (C04 flavour, cheap to check here)
         for i in range(2):
             exp = any(O[f"w{b['_w']}"] for b in self._all_branches(self.cfg2["block"]) if (b["calls"] >> i) & 1)
+            if (self.cfg.get("ecalls", 0) >> i) & 1:
+                exp = exp or erun
+                if erun and not I[f"r{i}"]:
+                    V.append(f"enclosing.callee_not_ready: the enclosing body runs although M{i}, which it calls, is not ready")
             if bool(O[f"M{i}.run"]) != bool(exp):
                 V.append(f"callee.run: M{i}.run={O[f'M{i}.run']} but branches calling it running={int(bool(exp))}")
         if self.cfg["encl"] != "t":
@@ -266,8 +279,41 @@ def blocks(max_br, masks, nested=False):
                                                           {"c": False, "calls": 0, "inner": inner}]}
 
 
+def deep_blocks():
+    """two levels of nesting: three lexically nested condition blocks, the innermost one calling M0"""
+    for nb, prio in itertools.product((False, True), repeat=2):
+        for where in (0, 1):
+            innermost = {"nb": nb, "prio": prio, "br": [{"c": True, "calls": 1}]}
+            mid_br = [{"c": True, "calls": 0}, {"c": True, "calls": 2}]
+            mid_br[where] = dict(mid_br[where], inner=innermost)
+            mid = {"nb": False, "prio": False, "br": mid_br}
+            yield {"nb": False, "prio": False, "br": [{"c": True, "calls": 0, "inner": mid}]}
+            yield {"nb": nb, "prio": prio, "br": [{"c": True, "calls": 0, "inner": mid}, {"c": False, "calls": 0}]}
+
+
+def nx_blocks():
+    """(ecalls, block) with nonexclusive callees: the enclosing body and a nested branch call the same method; two branches
+    of one block call the same method.  (Directly simultaneous co-callers -- enclosing body and a branch of its own block --
+    are rejected by the library at elaboration, C11's subject, and are not generated.)"""
+    for nb, prio in itertools.product((False, True), repeat=2):
+        inner = {"nb": False, "prio": False, "br": [{"c": True, "calls": 3}, {"c": True, "calls": 0}]}
+        yield 1, {"nb": nb, "prio": prio, "br": [{"c": True, "calls": 0, "inner": inner}]}
+        inner = {"nb": False, "prio": False, "br": [{"c": True, "calls": 1}]}
+        yield 1, {"nb": nb, "prio": prio, "br": [{"c": True, "calls": 2, "inner": inner}, {"c": True, "calls": 0}]}
+        yield 0, {"nb": nb, "prio": prio, "br": [{"c": True, "calls": 1}, {"c": True, "calls": 1}]}
+        yield 0, {"nb": nb, "prio": prio, "br": [{"c": True, "calls": 1}, {"c": True, "calls": 3}, {"c": False, "calls": 1}]}
+
+
 def jobs(tier):
     js = []
+    for encl in ("t", "m0", "m1", "m1c", "m1d") if tier == "quick" else ("t", "m0", "m1", "m2", "m1c", "m2c", "m1d"):
+        for blk in deep_blocks():
+            js.append(E1("checks.c12", "CondH", {"encl": encl, "block": blk}, replay_cap=2))
+    for encl in ("t", "m1", "m1c"):
+        for ecalls, blk in nx_blocks():
+            js.append(E1("checks.c12", "CondH", {"encl": encl, "block": blk, "nx": True, "ecalls": ecalls}, replay_cap=2))
+    for blk in blocks(2, [0, 1], nested=True):
+        js.append(E1("checks.c12", "CondH", {"encl": "m0", "block": blk}, replay_cap=2))
     if tier == "quick":
         for encl in ("t", "m1", "m2", "m1c"):
             for blk in blocks(2, [0, 1, 2]):
